@@ -356,9 +356,26 @@ func (c *connectionRequest) Server() RegisteredServer {
 }
 
 func (c *connectionRequest) checkServer(server RegisteredServer) (s ConnectionStatus, ok bool) {
+	c.player.mu.RLock()
+	defer c.player.mu.RUnlock()
+	return c.checkServer0(server)
+}
+
+// claimInFlight repeats checkServer and, if the request may proceed, registers conn as
+// the connection in flight within the same critical section, so that concurrent
+// requests can not both pass the check.
+func (c *connectionRequest) claimInFlight(server RegisteredServer, conn *serverConnection) (s ConnectionStatus, ok bool) {
+	c.player.mu.Lock()
+	defer c.player.mu.Unlock()
+	if s, ok = c.checkServer0(server); ok {
+		c.player.connInFlight = conn
+	}
+	return s, ok
+}
+
+// without locking
+func (c *connectionRequest) checkServer0(server RegisteredServer) (s ConnectionStatus, ok bool) {
 	p := c.player
-	p.mu.RLock()
-	defer p.mu.RUnlock()
 	if p.connInFlight != nil || (p.connectedServer_ != nil &&
 		!p.connectedServer_.completedJoin.Load()) {
 		return InProgressConnectionStatus, false
@@ -400,7 +417,9 @@ func (c *connectionRequest) internalConnect(ctx context.Context) (result *connec
 	}
 
 	conn := newServerConnection(server, c.previousServer, c.player)
-	c.player.setInFlightConnection(conn)
+	if status, ok = c.claimInFlight(newDest, conn); !ok {
+		return plainConnectionResult(status, newDest), nil
+	}
 	defer c.resetIfInFlightIs(conn)
 	return conn.connect(ctx)
 }
